@@ -49,6 +49,12 @@ class World:
             model.delete_agent(op["id"])
         elif kind == "delete_many":
             model.delete_agents(list(op["ids"]))
+        elif kind == "delete_type":
+            # the caller hands the registry's OWN id list back to delete_agents
+            model.delete_agents(model.agent_ids(op["type"]))
+        elif kind == "delete_each_of_type":
+            for i in model.agent_ids(op["type"]):
+                model.delete_agent(i)
         elif kind == "configure":
             model.configure_agents([{"name": t, "count": c} for t, c in op["spec"]])
         elif kind == "configure_bad":
